@@ -61,7 +61,7 @@ def pick_chunkings(rng, H, W, n, exhaustive):
             s, nw = "threads", rng.choice([2, 4, 16])
         else:
             s, nw = "order", rng.randrange(1, 10 ** 6)
-        out.append({"rows": r, "cols": c, "sched": s, "nw": nw})
+        out.append({"rows": r, "cols": c, "sched": s, "nw": nw, "joint": bool(s != "order" and rng.random() < 0.25)})
     return out
 
 
